@@ -51,6 +51,10 @@ pub struct Case {
     /// always run somebody else when the writer stops right before publishing the new length
     #[serde(default)]
     pub preempt_before_publish: bool,
+    /// readers are held back (for up to 16*n scheduling points) when they stop at the memory-map lock,
+    /// i.e. between the snapshot of the region's metadata and the acquisition of the map
+    #[serde(default)]
+    pub hold_readers_at_mmap: u8,
     pub stickiness: u16,
     pub choices: Vec<u16>,
 }
@@ -166,6 +170,13 @@ fn reader_prog<T: Elem, R: ReadableVec<usize, T> + vecdb::ReadableCloneableVec<u
         match step {
             RStep::Len => {}
             RStep::One(i) => {
+                // often aim at the indices the writer is appending right now (beyond the observed length):
+                // "nothing yet" is fine there, a wrong value is not
+                let span = match i % 5 {
+                    0 => observed + 70,
+                    1 => observed + 2100,
+                    _ => span,
+                };
                 let i = frac(i, span);
                 let got = ro.collect_one_at(i);
                 sh.reads.fetch_add(1, Ordering::Relaxed);
@@ -343,7 +354,11 @@ where
     } else {
         vec![]
     };
-    let out = sched::run_with(progs, &case.choices, case.stickiness, names, preempt);
+    let hold = (case.hold_readers_at_mmap > 0).then(|| sched::Holdback { progs: !1u32, class: "mmap", points: case.hold_readers_at_mmap as usize * 16 });
+    if hold.is_some() {
+        obs.label("readers-held-back-at-the-memory-map-lock");
+    }
+    let out = sched::run_full(progs, &case.choices, case.stickiness, names, preempt, hold);
     sut.vec = vec_slot.lock().unwrap().take();
     if let Some(m) = &out.inconclusive {
         return Err(format!("INCONCLUSIVE: {m}"));
@@ -424,10 +439,11 @@ impl Prop for P {
             prop::bool::weighted(0.4),
             prop::collection::vec(prop::collection::vec(rstep(), 1..=6), 1..=2),
             prop::bool::weighted(0.5),
+            prop_oneof![3 => Just(0u8), 1 => Just(2u8), 1 => Just(6u8), 1 => Just(20u8)],
             prop_oneof![Just(0u16), Just(30000u16), Just(52000u16), Just(62000u16)],
             prop::collection::vec(any::<u16>(), 0..300),
         )
-            .prop_map(move |(ci, initial, batches, flush, fill_file, readers, preempt_before_publish, stickiness, choices)| Case {
+            .prop_map(move |(ci, initial, batches, flush, fill_file, readers, preempt_before_publish, hold_readers_at_mmap, stickiness, choices)| Case {
                 cfg: VecCfg { fmt: pairs[ci].0, ty: pairs[ci].1, retention: 0 },
                 initial,
                 batches,
@@ -435,6 +451,7 @@ impl Prop for P {
                 fill_file,
                 readers,
                 preempt_before_publish,
+                hold_readers_at_mmap,
                 stickiness,
                 choices,
             })
